@@ -203,6 +203,8 @@ def apply_faults(stream, faults, fired=None):
                         continue
                 keep.append(r)
             out = keep
+        elif k == 'tail':
+            out = out[:max(0, len(out) - f['n'])]
         elif k == 'drop_origin':
             out = [r for r in out if r['o'] != f['o']]
         else:
